@@ -355,7 +355,7 @@ def decide_site(ctx, o, fixed_env=None):
             deps = sorted(result_deps(pdb, v))
         except Uncertified:
             deps = None
-    if deps is not None and len(deps) <= 20:
+    if deps is not None and len(deps) <= 20 and (1 << len(deps)) * size <= 20000000:
         atoms_ = {}
         for x in walk(v):
             if x[0] == "atom":
@@ -457,9 +457,30 @@ def decide_by_order_types(ctx, v, fixed_env):
             atoms_[x[1]] = x
         for ch in children(x):
             parents.setdefault(id(ch), []).append(x)
-    free = [a for nm, a in atoms_.items() if nm not in fixed_env]
-    if not free or len(free) > 4 or any(a[2] not in INT_BITS for a in free):
+    free_all = [a for nm, a in atoms_.items() if nm not in fixed_env]
+    boolean = [a for a in free_all if a[2] == "bool"]
+    free = [a for a in free_all if a[2] != "bool"]
+    if not free_all or len(free) > 4 or len(boolean) > 4 or any(a[2] not in INT_BITS for a in free):
         return None
+    if boolean:
+        # boolean unknowns: by cases
+        how = ""
+        from ..evals import substitute
+        for combo in itertools.product((0, 1), repeat=len(boolean)):
+            fe = dict(fixed_env)
+            fe.update({a[1]: x for a, x in zip(boolean, combo)})
+            sub_ = {id(a): C(x, "bool") for a, x in zip(boolean, combo)}
+            v2 = substitute(v, lambda nd: sub_.get(id(nd)))      # rebuilt: choices on the fixed booleans disappear
+            if v2[0] == "c":
+                r = (True, "by cases") if not v2[1] else (False, fe)
+            elif free:
+                r = decide_by_order_types(ctx, v2, fixed_env)
+            else:
+                r = (True, "by cases") if not cval(evaluate(pdb, v2, fe)) else (False, fe)
+            if r is None or r[0] is not True:
+                return r
+            how = r[1]
+        return True, how
     for a in free:
         for p_ in parents.get(id(a), []):
             if p_[0] == "bin" and p_[1] in ("Eq", "Ne", "Lt", "Le", "Gt", "Ge"):
